@@ -16,6 +16,8 @@ EXPLANATION = (
     "when the egress interface is known and up; SpecRoutingLogic::route's ForwardLocal result passes the local_as != dst_ia "
     "test."
 )
+EXPLANATION_ADD = " Additions: (GS-mac-bypass) as in C11 for the simulator's validator; (FLOW-err-dir) interface errors carry the construction-direction flag of the segment their hop field belongs to."
+EXPLANATION = EXPLANATION + EXPLANATION_ADD
 RESIDUAL = ["verdict equality with an independently written router", "bounded number of AS steps",
             "the known over-rejection of shortcut/peering paths (ingress check on the second hop field of a crossover) is a value decision"]
 ASSUMPTIONS = ["link-type semantics of AsRoutingLinkType variants are as named"]
